@@ -732,10 +732,13 @@ Proof. vm_compute. eexists. split; [reflexivity|]. split; reflexivity. Qed.
 
 Inductive field := FSync | FTs | FMeta | FLat | FTree.
 Inductive mutex := MuW | MuTs | MuMeta | MuLat | MuTree.
-Inductive thread := Stream | Refresh.
+(** how a mutex is held: exclusively (Lock) or shared (RLock of an RWMutex) *)
+Inductive lmode := Ex | Sh.
+(** the three goroutines of the collector per target *)
+Inductive thread := Stream | RefreshMeta | RefreshSize.
 
 Record access := Acs {
-  ac_field : field; ac_write : bool; ac_thread : thread; ac_held : list mutex; ac_site : string }.
+  ac_field : field; ac_write : bool; ac_thread : thread; ac_held : list (mutex * lmode); ac_site : string }.
 
 Definition field_eqb (a b : field) : bool :=
   match a, b with
@@ -748,50 +751,63 @@ Definition mutex_eqb (a b : mutex) : bool :=
   | _, _ => false
   end.
 Definition thread_eqb (a b : thread) : bool :=
-  match a, b with Stream, Stream | Refresh, Refresh => true | _, _ => false end.
+  match a, b with
+  | Stream, Stream | RefreshMeta, RefreshMeta | RefreshSize, RefreshSize => true
+  | _, _ => false
+  end.
+Definition is_ex (m : lmode) : bool := match m with Ex => true | Sh => false end.
 
 (** Since b865e5c [Target.wmu] ([MuW]) is held across Target.GnmiUpdate
     (including its deferred checkTimestamp), updateMeta and Reset: every site
     that touches [t.sync] / [t.ts] runs under it.  UpdateSize takes no [wmu]; it
-    touches only the tree (its own locks) and the metadata values (their mutex). *)
+    touches only the tree (its own locks) and the metadata values.
+    [metadata.Metadata.mu] ([MuMeta]) is named per METHOD with the mode it is
+    taken in: on HEAD it is a sync.Mutex, so every method holds it [Ex]. *)
 Definition accesses : list access :=
   [ (* t.sync *)
-    Acs FSync true Stream [MuW] "gnmiUpdate: t.sync = tv.BoolVal (meta/sync written by Sync()), under Target.GnmiUpdate";
-    Acs FSync false Stream [MuW] "gnmiUpdate: if t.sync && realData / if t.sync, under Target.GnmiUpdate";
-    Acs FSync true Refresh [MuW] "updateMeta -> generateMetaUpdates -> gnmiUpdate(meta/sync): t.sync = tv.BoolVal";
-    Acs FSync false Refresh [MuW] "updateMeta -> generateMetaUpdates -> gnmiUpdate: if t.sync";
+    Acs FSync true Stream [(MuW, Ex)] "gnmiUpdate: t.sync = tv.BoolVal (meta/sync written by Sync()), under Target.GnmiUpdate";
+    Acs FSync false Stream [(MuW, Ex)] "gnmiUpdate: if t.sync && realData / if t.sync, under Target.GnmiUpdate";
+    Acs FSync true RefreshMeta [(MuW, Ex)] "updateMeta -> generateMetaUpdates -> gnmiUpdate(meta/sync): t.sync = tv.BoolVal";
+    Acs FSync false RefreshMeta [(MuW, Ex)] "updateMeta -> generateMetaUpdates -> gnmiUpdate: if t.sync";
     (* t.ts *)
-    Acs FTs true Stream [MuW; MuTs] "checkTimestamp (deferred in Target.GnmiUpdate, runs before the deferred Unlock)";
-    Acs FTs true Stream [MuW; MuTs] "resetTimestamp (Reset)";
-    Acs FTs false Stream [MuW] "gnmiUpdate: t.ts.UnixNano() / nts.Sub(t.ts) in the future check";
-    Acs FTs false Refresh [MuW; MuTs] "updateMetaLocked: latest := t.ts";
-    Acs FTs false Refresh [MuW] "generateMetaUpdates -> gnmiUpdate: future check reads t.ts";
-    (* metadata values: every access goes through metadata.Metadata's methods *)
-    Acs FMeta true Stream [MuW; MuMeta] "meta.AddInt / SetBool / SetStr / ResetEntry / Clear";
-    Acs FMeta true Refresh [MuW; MuMeta] "meta.SetInt (latest, latency stats) in updateMetaLocked";
-    Acs FMeta true Refresh [MuMeta] "meta.SetInt (size) in updateSize";
-    Acs FMeta false Refresh [MuW; MuMeta] "meta.GetBool / GetInt / GetStr in generateMetaUpdates";
+    Acs FTs true Stream [(MuW, Ex); (MuTs, Ex)] "checkTimestamp (deferred in Target.GnmiUpdate, runs before the deferred Unlock)";
+    Acs FTs true Stream [(MuW, Ex); (MuTs, Ex)] "resetTimestamp (Reset)";
+    Acs FTs false Stream [(MuW, Ex)] "gnmiUpdate: t.ts.UnixNano() / nts.Sub(t.ts) in the future check";
+    Acs FTs false RefreshMeta [(MuW, Ex); (MuTs, Ex)] "updateMetaLocked: latest := t.ts";
+    Acs FTs false RefreshMeta [(MuW, Ex)] "generateMetaUpdates -> gnmiUpdate: future check reads t.ts";
+    (* metadata value maps, per method of metadata.Metadata *)
+    Acs FMeta true Stream [(MuW, Ex); (MuMeta, Ex)] "Metadata.AddInt (counters, in GnmiUpdate / gnmiUpdate / gnmiRemove)";
+    Acs FMeta true Stream [(MuW, Ex); (MuMeta, Ex)] "Metadata.SetBool / SetStr (metadata side effects of gnmiUpdate)";
+    Acs FMeta true Stream [(MuW, Ex); (MuMeta, Ex)] "Metadata.ResetEntry / Clear (gnmiRemove of a meta path, Reset): SetBool / SetInt / SetStr / delete";
+    Acs FMeta true RefreshMeta [(MuW, Ex); (MuMeta, Ex)] "Metadata.SetInt (latestTimestamp, latency stats) in updateMetaLocked";
+    Acs FMeta false RefreshMeta [(MuW, Ex); (MuMeta, Ex)] "Metadata.GetBool / GetInt / GetStr in generateMetaUpdates";
+    Acs FMeta true RefreshSize [(MuMeta, Ex)] "Metadata.SetInt (targetSize) in updateSize";
     (* latency accumulators *)
-    Acs FLat true Stream [MuW; MuLat] "lat.Compute";
-    Acs FLat true Refresh [MuW; MuLat] "lat.UpdateReset";
+    Acs FLat true Stream [(MuW, Ex); (MuLat, Ex)] "lat.Compute";
+    Acs FLat true RefreshMeta [(MuW, Ex); (MuLat, Ex)] "lat.UpdateReset";
     (* the tree *)
-    Acs FTree true Stream [MuW; MuTree] "t.t.Add / Leaf.Update / WalkDeleted / Delete";
-    Acs FTree true Refresh [MuW; MuTree] "generateMetaUpdates -> gnmiUpdate: t.t.Add / Leaf.Update";
-    Acs FTree false Refresh [MuTree] "updateSize: t.t.Query" ].
+    Acs FTree true Stream [(MuW, Ex); (MuTree, Ex)] "t.t.Add / Leaf.Update / WalkDeleted / Delete";
+    Acs FTree true RefreshMeta [(MuW, Ex); (MuTree, Ex)] "generateMetaUpdates -> gnmiUpdate: t.t.Add / Leaf.Update";
+    Acs FTree false RefreshSize [(MuTree, Sh)] "updateSize: t.t.Query (RLock of every node visited)" ].
 
+(** two sites exclude each other when they hold a common mutex and at least
+    one of them holds it exclusively *)
 Definition share_lock (a b : access) : bool :=
-  existsb (fun m => existsb (mutex_eqb m) (ac_held b)) (ac_held a).
+  existsb (fun ma => existsb (fun mb => mutex_eqb (fst ma) (fst mb) && (is_ex (snd ma) || is_ex (snd mb)))
+                             (ac_held b)) (ac_held a).
 
 (** two accesses conflict: same field, different goroutines, one is a write *)
 Definition conflict (a b : access) : bool :=
   field_eqb (ac_field a) (ac_field b) && negb (thread_eqb (ac_thread a) (ac_thread b)) &&
   (ac_write a || ac_write b).
 
-Definition no_unprotected_access (f : field) : bool :=
-  forallb (fun a => forallb (fun b =>
-    negb (field_eqb (ac_field a) f && conflict a b) || share_lock a b) accesses) accesses.
+Definition unprotected_in (tbl : list access) (f : field) : bool :=
+  negb (forallb (fun a => forallb (fun b =>
+    negb (field_eqb (ac_field a) f && conflict a b) || share_lock a b) tbl) tbl).
 
-(** every conflicting pair of access sites shares a mutex *)
+Definition no_unprotected_access (f : field) : bool := negb (unprotected_in accesses f).
+
+(** every conflicting pair of access sites excludes each other *)
 Theorem lockset_all : forall f, no_unprotected_access f = true.
 Proof. intros []; vm_compute; reflexivity. Qed.
 
@@ -800,12 +816,23 @@ Proof. intros []; vm_compute; reflexivity. Qed.
     harness/c15/race.go); the annotation without [MuW]: *)
 Definition accesses_before_wmu : list access :=
   map (fun a => Acs (ac_field a) (ac_write a) (ac_thread a)
-                    (filter (fun m => negb (mutex_eqb m MuW)) (ac_held a)) (ac_site a)) accesses.
+                    (filter (fun m => negb (mutex_eqb (fst m) MuW)) (ac_held a)) (ac_site a)) accesses.
 
-Example lockset_before_wmu_refuted :
-  forallb (fun a => forallb (fun b =>
-    negb (field_eqb (ac_field a) FSync && conflict a b) || share_lock a b) accesses_before_wmu)
-    accesses_before_wmu = false.
+Example lockset_before_wmu_refuted : unprotected_in accesses_before_wmu FSync = true.
+Proof. vm_compute. reflexivity. Qed.
+
+(** a write site holding the metadata mutex only SHARED is unprotected: the
+    picture if [metadata.Metadata.mu] were an RWMutex and [SetInt] took RLock
+    (UpdateSize's and UpdateMetadata's SetInt then write the int map at once) *)
+Definition accesses_setint_rlock : list access :=
+  map (fun a =>
+         if field_eqb (ac_field a) FMeta && ac_write a &&
+            negb (thread_eqb (ac_thread a) Stream)           (* the two SetInt sites of the refresh goroutines *)
+         then Acs (ac_field a) (ac_write a) (ac_thread a)
+                  (map (fun m => if mutex_eqb (fst m) MuMeta then (MuMeta, Sh) else m) (ac_held a)) (ac_site a)
+         else a) accesses.
+
+Example lockset_shared_write_refuted : unprotected_in accesses_setint_rlock FMeta = true.
 Proof. vm_compute. reflexivity. Qed.
 
 (** * Examples *)
